@@ -193,6 +193,12 @@ def worker (w : World) (s : SState) (target : Path) (v : Verb) (payload : Bytes)
     | .mlsd => (w, s', { replies := [200], listing := some ((w.fs.children target).map (fun p => p.getLast?.getD [])) })
     | _ => (w, s', {})
 
+/-- the guard of `int(rest)` in the REST handler, as found in the source now (`Generated.restPredicate`) -/
+def restAccepts (rest : Str) : Bool :=
+  if restPredicate = "isdecimal" then isDecimal rest
+  else if restPredicate = "isdigit" then isDigit rest
+  else false
+
 def body (cfg : Cfg) (w : World) (s : SState) (v : Verb) (rest : Str) (arg : PPath) (payload : Bytes) :
     World × SState × Out :=
   let target := resolve s arg
@@ -263,7 +269,7 @@ def body (cfg : Cfg) (w : World) (s : SState) (v : Verb) (rest : Str) (arg : PPa
     else (w, { s with passive := true, dataConn := false }, { replies := [229], dataClosed := s.dataConn })
   | .abor => (w, s, { replies := [226] })    -- sequential setting: never a running worker
   | .rest =>
-    if isDigit rest then
+    if restAccepts rest then
       match intOfDigits? rest with
       | some n => (w, { s with restartOffset := n }, { replies := [350] })
       | none => (w, { s with alive := false }, { crashed := true })   -- int() raises ValueError in the handler
